@@ -1451,7 +1451,14 @@ def _handle_note(e, position, part, ongoing, prev_note, doc_order, prev_beam=Non
         if "start" in tie_types:
             tie_next = ongoing.get(tie_stop_key, None)
 
-            if tie_next is not None and tie_next.start.t == position + duration:
+            # a note without duration (grace note) is not tied to a waiting
+            # grace note: that is the note itself or an earlier note of its
+            # grace run, the note it is tied to follows it in the document
+            if (
+                tie_next is not None
+                and tie_next.start.t == position + duration
+                and not (duration == 0 and isinstance(tie_next, score.GraceNote))
+            ):
                 note.tie_next = tie_next
                 tie_next.tie_prev = note
                 del ongoing[tie_stop_key]
